@@ -79,7 +79,9 @@ class SymFaults(object):
          'shutdown','close','wrap_socket'); kinds: 'oserror' | 'exception'
     skip: {op: n} -- the first n occurrences of op are not eligible (e.g. the upgrade request)"""
 
-    def __init__(self, ops, kinds=('oserror',), max_faults=1, skip=None, only_sock=None):
+    def __init__(self, ops, kinds=('oserror',), max_faults=1, skip=None, only_sock=None, sticky=()):
+        self.sticky = set(sticky)     # ops that keep failing once they failed (a dead socket stays dead)
+        self.dead = {}
         self.ops = set(ops)
         self.kinds = list(kinds)
         self.left = max_faults
@@ -89,6 +91,12 @@ class SymFaults(object):
         self.only_sock = only_sock
 
     def __call__(self, op, sock):
+        if op in self.dead:
+            kind = self.dead[op]
+            World.cur.log.append(('fault', op, -1, kind))
+            if kind == 'oserror':
+                raise _socket.error(104, 'injected socket error in %s (socket is dead)' % op)
+            raise InjectedError('injected non-socket exception in %s (socket is dead)' % op)
         if op not in self.ops or self.left <= 0:
             return
         if self.only_sock is not None and sock is not None and sock.id != self.only_sock:
@@ -103,6 +111,8 @@ class SymFaults(object):
         kind = self.kinds[k - 1]
         self.left -= 1
         self.injected.append((op, n, kind))
+        if op in self.sticky:
+            self.dead[op] = kind
         World.cur.log.append(('fault', op, n, kind))
         if kind == 'oserror':
             raise _socket.error(104, 'injected socket error in %s' % op)
@@ -322,7 +332,7 @@ class FakeSocketModule(object):
         w = World.cur
         w.log.append(('socket-attempt',))
         w.op('socket', None)
-        return _PlainSocket(w, af)
+        return (getattr(w, 'sock_class', None) or _PlainSocket)(w, af)
 
     @staticmethod
     def create_connection(*a, **k):
@@ -373,6 +383,9 @@ class FakePoll(object):
 
     def poll(self, timeout_ms=None):
         w = World.cur
+        w.wait_calls = getattr(w, 'wait_calls', 0) + 1
+        if w.wait_calls > 4 * w.max_waits + 50:
+            raise LoopBudget('more than %d selector wait calls' % (4 * w.max_waits + 50))
         w.op('wait', None)
         socks = [w.fd_map[fd] for fd in self.fds]
         return wait_readable(w, socks, timeout_ms, scale=1000.0)
